@@ -6,6 +6,12 @@ ENGINES = [
 ]
 NOT_BUILT_REASON = {}
 META = {
+    "C08": {
+        "engine": "vkit (E2)",
+        "technique": "exhaustive structural mutation of every node of seed proof-list JSON documents (fault enumeration on the decoder/verifier boundary)",
+        "text": "Eight seed documents (ProofD plain / non-revocation / range proofs with 3 and 4 squares on one and two attributes, ProofU plain / random-blind, mixed lists) x every JSON node x the menu (delete, null, empty string, AQ==, 0, {}, [], negative, duplicate key, re-keying of integer keys to -1 / 0 / len(R) / 2^31 / overflow / non-numeric / colliding, sibling swaps, array truncation at every length, extension, swaps, unknown keys, moving and copying optional sub-proofs between proofs); thorough adds all pairs of structural mutations. Each decodable mutant is verified through ProofList.Verify (three call shapes), ProofD.Verify and ProofU.Verify under recover: no panic, and acceptance only if the decoded list equals the seed by value.",
+        "note": "Byte-level coverage-guided fuzzing is sampling and is not used. Public keys are well-formed (as the property assumes).",
+    },
     "C14": {
         "engine": "vkit (E2)",
         "technique": "exhaustive enumeration of builder lists x key tuples x participating subsets for the honest exchange; exhaustive alteration of the second message relative to the first",
